@@ -3,6 +3,7 @@ import SieveModel.Model.TableCodec
 import SieveModel.Generated.Tables
 import SieveModel.Model.Client
 import SieveModel.Spec.WF
+import SieveModel.Model.Serialize
 /-! Line-protocol driver: one request per line on stdin, one answer per line on stdout. -/
 
 structure DState where
@@ -92,6 +93,11 @@ def answer (st : DState) (line : String) : DState × String :=
   | "parse" :: rest =>
     let t := hexArg rest
     (st, Show.outcome t (Machine.parse st.table t))
+  | "ser" :: rest =>
+    let t := hexArg rest
+    match Machine.parse st.table t with
+    | .accept r => (st, match Ser.script st.table r with | some b => "ok " ++ hexOr b | none => "crash")
+    | _ => (st, "notaccepted")
   | "wf" :: rest => (st, (Spec.wfBytes st.table (hexArg rest)).name)
   | ["table-reset"] => ({ st with table := Generated.builtinTable }, "ok")
   | ["table-clear"] => ({ st with table := [] }, "ok")
